@@ -297,8 +297,11 @@ def main(pid, tier="quick", seed=0, jobs=None, only=None, write_baseline=False):
     }
     if hasattr(mod, "finish_evidence"):
         mod.finish_evidence(ev, results)
-    os.makedirs(os.path.join(ROOT, "evidence"), exist_ok=True)
-    with open(os.path.join(ROOT, "evidence", f"{pid}.json"), "w") as f:
+    # tools that run the checks against a deliberately changed /repo (tools/mut.sh, seed_eval.sh, refactor_eval.sh) redirect
+    # the evidence so that the committed files always describe the unchanged tree
+    evdir = os.environ.get("VERIF_EVIDENCE_DIR") or os.path.join(ROOT, "evidence")
+    os.makedirs(evdir, exist_ok=True)
+    with open(os.path.join(evdir, f"{pid}.json"), "w") as f:
         json.dump(ev, f, indent=1, default=str)
     if viol_records:
         with open(os.path.join(rdir, "violations.json"), "w") as f:
